@@ -147,7 +147,7 @@ def shard_core(arg):
         for ri, rseq in enumerate(REF_SEQS):
             if len(rseq) < len(seq):
                 continue
-            if not thorough and (ri + sum(seq)) % 2:
+            if (not thorough or len(seq) >= 4) and (ri + sum(seq)) % 2:
                 continue
             Pr = chain(rseq[:len(seq)])
             mode = ("se3", "quat")[(ri + len(seq)) % 2]
@@ -446,7 +446,7 @@ def run(ctx):
         "and zero for identical relative motions; unequal lengths refused; "
         "evo_rpe lattice (%d points) vs the reference pipeline. non-trivial = "
         "cases with at least one selected pair" %
-        (maxlen, "8" if ctx.thorough else "4 of 8 (alternating)", len(pts)))
+        (maxlen, "8 (4 of 8 for 4 steps)" if ctx.thorough else "4 of 8 (alternating)", len(pts)))
     acc.assumptions = [
         "the expected pairs are evo's own id_pairs_from_delta (decided by "
         "C10) applied to the trajectory the property names (estimate, or "
